@@ -25,6 +25,8 @@ pub trait Logic: Sized + Clone {
     fn var(name: &str, lo: f64, hi: f64) -> Self;
     fn assume(p: Self::P);
     fn ensure(name: &str, p: Self::P);
+    /// an ensure that, once discharged, becomes a premise of the later obligations of the same path (cut point)
+    fn lemma(name: &str, p: Self::P) { Self::ensure(&format!("lemma.{}", name), p) }
     fn output(name: &str, v: &Self);
     fn identical(name: &str, a: &Self, b: &Self);
     /// tolerance: `real` for the real-arithmetic proof, `float` when replaying in f64
